@@ -669,7 +669,14 @@ func Layout(lines []Line, pol *Policy) (string, LineMap) {
 			if k := pol.pick(ln.Indent+3, "comment-indent"); k > 0 {
 				cind = strings.Repeat(unit, k-1)
 			}
-			switch pol.pick(6, "pre-line") {
+			switch pol.pick(8, "pre-line") {
+		case 6:
+			// comments without any text
+			b.WriteString(cind + "注：" + eol)
+			phys++
+		case 7:
+			b.WriteString(cind + []string{"//", "注7：", "/**/", "注：“”"}[pol.pick(4, "empty-comment")] + eol)
+			phys++
 			case 1:
 				// a blank line - which may hold white space of any kind and amount
 				b.WriteString([]string{"", "  ", "\t", " \t ", "       ", "\u3000"}[pol.pick(6, "blank-spaces")])
@@ -781,11 +788,15 @@ func Layout(lines []Line, pol *Policy) (string, LineMap) {
 				continue
 			}
 			// trailing comment
-			switch pol.pick(6, "trail-comment") {
+			switch pol.pick(8, "trail-comment") {
 			case 1:
 				b.WriteString("  // 行尾")
 			case 2:
 				b.WriteString(" 注：行尾说明")
+			case 3:
+				b.WriteString(" 注：")
+			case 4:
+				b.WriteString(" //")
 			}
 		}
 		// white space at the end of a line (after a statement or after its trailing comment)
